@@ -329,6 +329,7 @@ pub fn callee_json<'tcx>(
         c.put("rkind", J::s(kind));
         c.put("rdef", J::s(cx.path(rd)));
         c.put("rpath", J::s(tcx.def_path_str_with_args(rd, inst.args)));
+        c.put("rargs", J::Arr(inst.args.iter().map(|a| J::s(format!("{}", a))).collect()));
         if let Some(id) = cx.fn_ids.get(&rd) {
             c.put("rfn", J::Int(*id as i128));
         }
